@@ -675,7 +675,7 @@ func (w *World) encapsulationObligations() []*Obl {
 		var offenders []string
 		for _, key := range sortedKeys(w.funcs) {
 			fn := w.funcs[key]
-			if len(fn.Blocks) == 0 || !storesToStruct(fn, st) {
+			if len(fn.Blocks) == 0 || !storesToFields(fn, st, w.invFields(iv.Pkg, tn)) {
 				continue
 			}
 			if fn.Signature.Recv() != nil && types.Identical(deref(fn.Signature.Recv().Type()), st) {
